@@ -97,3 +97,43 @@ PENDING = {
     "C13": "Engine K harnesses not built yet in this revision",
     "C20": "Verus unit for the pyo3 / wasm wrapper bodies not built yet in this revision",
 }
+
+K_ASSUME = ['rem_euclid / sqrt / powi / acos are replaced by the contract models of kani/h_common.rs (CBMC does not model them faithfully); results hold for the stated model domains', 'Kani 0.68 / CBMC 6.11 bit-precise IEEE-754 semantics of + - * / < abs min max clamp', 'rand::Rng::random_range(lo..hi) returns lo <= v < hi when lo < hi are finite and hi - lo is finite (sample_uniform itself is not executed under CBMC)']
+PROPS["C04"]["k_harnesses"] = True
+PROPS["C06"]["k_harnesses"] = True
+PROPS["C04"]["assumptions"] = PROPS["C04"]["assumptions"] + K_ASSUME
+PROPS["C06"]["assumptions"] = PROPS["C06"]["assumptions"] + K_ASSUME
+PROPS.update({
+    "C09": dict(
+        k_harnesses=True, level="other",
+        explanation="Kani/CBMC harnesses on the real distance functions. Decided: SO(2): 0 <= d <= PI never NaN, d(a,a) == 0, (thorough) d equals the short arc within 2e-15 — complete over all canonical angles; SO(3): 0 <= d <= PI for all component values in [-1,1], NaN-or-in-range for all non-NaN values, (thorough) symmetric and q / -q equal bit for bit; RealVector: non-negative, symmetric bit for bit, d(a,a) == 0, equals sqrt(sum of squares) left to right — BOUNDED to dimension 2; compound / SE(2): weighted-L2 law bit for bit for the layout R^1 x SO(2) — BOUNDED in layout. Also audits every EXACT f64 axiom the Verus units use (complete over all bit patterns). Partial: level `other`.",
+        assumptions=K_ASSUME,
+        not_covered=["triangle inequality on every space", "SO(2) symmetry d(a,b) == d(b,a) up to tolerance and seam equivalence (two chained float evaluations did not finish)", "RealVector beyond dimension 2, compound layouts beyond R^1 x SO(2), SE(3)", "agreement with an independent reference beyond the stated spec functions"],
+    ),
+    "C10": dict(
+        k_harnesses=True, level="other",
+        explanation="Kani/CBMC harnesses on the real interpolate functions. Decided: SO(2): the result is canonical (in [-PI,PI]) for all canonical a, b and t in [0,1]; (thorough) returns a at t = 0 up to 1e-15 mod 2 PI; RealVector (BOUNDED dimension 2): interpolate computes a_i + (b_i - a_i) * t bit for bit, and the scalar law (complete): equals a at t = 0 and lies between a and the t = 1 value a + (b - a) for every t in [0,1]; compound: acts component by component (BOUNDED layout). `returns b exactly at t = 1` is false for f64 (a + (b - a) != b for many pairs): this is the reason check_motion validates `to` itself (C01).",
+        assumptions=K_ASSUME,
+        not_covered=["constant speed d(a, interp(a,b,t)) == t d(a,b) on every space", "SO(3) SLERP / NLERP: unit norm of the result, switch continuity, end points", "SO(2) interp(b,a,1-t) == interp(a,b,t)"],
+    ),
+    "C11": dict(
+        k_harnesses=True, level="proof",
+        explanation="Kani/CBMC harnesses on the real enforce_bounds / satisfies_bounds. SO(2) — complete over all well-formed bounds and all states in the rem_euclid model domain: after enforce the check accepts the state, the value is numerically inside [lo,hi], a second enforce is the identity bit for bit, a canonical satisfying state is left unchanged, and any value in [lo,hi) (random_range contract) satisfies the bounds. RealVector — BOUNDED to dimension 2: same clauses (enforce never panics on a constructible box). Compound (R^1 x SO(2)): component-wise and enforced ==> accepted (bounded layout).",
+        assumptions=K_ASSUME,
+        not_covered=["SO(3) enforce_bounds / satisfies_bounds / sample_uniform (acos / sin reasoning; the rejection loop is unbounded)", "sample_uniform is not executed under CBMC: its guards and rand's contract are used instead"],
+    ),
+    "C12": dict(
+        k_harnesses=True, level="proof",
+        explanation="Kani/CBMC function contract on the real SO2StateSpace::new (complete over all Option<(f64,f64)>): Ok <==> both the given and the clamped interval are non-empty (NaN rejected), stored bounds satisfy -PI <= lo < hi <= PI, the error is InvalidBound; every returned space has a non-empty finite range and its bounds operations do not panic. SO3StateSpace::new (complete): Ok ==> 0 <= radius <= PI never NaN, Err <==> radius < 0. RealVectorStateSpace::new: BOUNDED (dimension 1 quick, <= 2 thorough). SO2State::new / normalise / SE2State::new: result in [-PI,PI] for all finite angles (range model) and congruent mod 2 PI (thorough, exact model domain). SO3State::normalise: Err(ZeroMagnitude) <==> norm < 1e-9, otherwise every component divided by the norm.",
+        assumptions=K_ASSUME,
+        not_covered=["SE(3) and compound constructors", "unit norm of the normalised quaternion up to tolerance (needs an error bound on sqrt)"],
+    ),
+    "C13": dict(
+        k_harnesses=True, level="other",
+        explanation="Kani/CBMC on the real CompoundStateSpace / SE2StateSpace through real Box<dyn AnyStateSpace> dispatch and Any downcasts, for the layout R^1 x SO(2) with symbolic weights, bounds and states: distance == sqrt(0 + sum (d_i w_i)^2) bit for bit, the resolution is the same weighted combination, interpolate / satisfies_bounds / enforce_bounds act component by component (each component equals the component space's own result bit for bit), downcasts never fail; SE(2) equals the compound of R^2 and SO(2) with weights (1, w). BOUNDED in layout: level `other`.",
+        assumptions=K_ASSUME,
+        not_covered=["layouts other than R^1 x SO(2) and SE(2); SE(3); sample_uniform component-wise (not executed under CBMC)"],
+    ),
+})
+for _k in ("C09", "C10", "C11", "C12", "C13"):
+    PENDING.pop(_k, None)
